@@ -258,7 +258,7 @@ def _id_task(rng, shared_gens, files, tname, nops, small):
         r = rng.random()
         if docs_ok and r < 0.35:
             ops.append({"op": "compile", "c": rng.randrange(len(compilers)), "of": docs_ok[rng.randrange(len(docs_ok))], "uri": "u%d.feature" % oi,
-                        "attach": "set" if rng.random() < 0.2 else "copy"})
+                        "attach": rng.choice(["set", "set", "copy", "copy", "copy", "copy", "copy", "copy", "json", "json"])})
             labels.append("compile")
             continue
         label, text = workload.pick_doc(rng, (matchers[0] or {"d": "en"})["d"], p_pool=0.5, p_corpus=0.15 if not small else 0.05, p_damage=0.3)
